@@ -22,8 +22,8 @@ RULE = ("every program = tree of with-blocks with bodies of bounded length per n
 ASSUMPTIONS = [
     "'displaying a value' is calling sys.displayhook(value), as the interpreter does for an "
     "expression statement",
-    "re-using a tag in a second with-block after its first block has exited is outside the statement "
-    "(it raises today); only hook-chain integrity is asserted for it",
+    "a tag whose block has exited is not active: it can be used for another block (the statement only makes "
+    "entering a tag whose block is STILL ACTIVE an error)",
 ]
 
 ATOMS_FULL = [["disp", "str"], ["disp", "list"], ["disp", "tag"], ["disp", "none"], ["disp", "ellipsis"],
@@ -211,20 +211,28 @@ def run_body(body, stack, R: Run):
                     if type(e).__name__ != R.expected_fault:
                         raise Viol("wrong-exception", f"{type(e).__name__} escaped a block, expected {R.expected_fault}")
         elif k == "reuse":
-            # sequential re-use of an exited tag at top level: only hook integrity is asserted
+            # sequential re-use of an exited tag at top level: its block is not active any more, so it can be
+            # entered again; what is displayed inside goes to the tag, and on exit the tag is handed to the
+            # enclosing hook once more (once per block)
             exited = [t for t in R.tags.values() if all(t is not s for s in stack)]
             if not exited:
                 continue
             t = exited[0]
             before = sys.displayhook
-            R.reused.add(id(t))
+            R.n_effects += 1
             try:
                 with t:
-                    pass
-            except RuntimeError:
-                pass
-            if sys.displayhook is not before:
-                raise Viol("reuse:hook-changed", "sequential re-use of a tag left sys.displayhook changed")
+                    sys.displayhook("again")
+            except RuntimeError as e:
+                raise Viol("reuse:raises", f"entering a tag whose block has exited raised RuntimeError: {e}")
+            finally:
+                if sys.displayhook is not before:
+                    raise Viol("reuse:hook-changed", "sequential re-use of a tag left sys.displayhook changed")
+            R.exp_children[id(t)].append(("str", "again"))
+            if stack:
+                R.exp_children[id(stack[-1])].append(("obj", id(t)))
+            else:
+                R.exp_rec.append(("tag", id(t)))
         else:
             raise ValueError(ev)
 
